@@ -139,6 +139,17 @@ def run_conv(fzf, tmp, sc):
                 if not s.post(act):
                     return None, 'POST failed'
             st = s.settle(tries=400, delay=0.02)
+            # "nothing pending" is not observable from outside: the coordinator sleeps up to 100 ms between
+            # rounds while input is arriving, and a reload-sync publishes its list only when its command has
+            # ended. Quiescence = the same state twice, 350 ms apart.
+            for _ in range(20):
+                if st is None:
+                    break
+                time.sleep(0.35)
+                st2 = s.settle(tries=100, delay=0.02)
+                if st2 is not None and json.dumps(st2, sort_keys=True) == json.dumps(st, sort_keys=True):
+                    break
+                st = st2
             if st is None or st.get('reading'):
                 return None, 'never became quiescent'
             excluded = []
